@@ -466,26 +466,62 @@ func sortedSet(m map[common.ValidatorIndex]bool) common.CommitteeIndices {
 	return out
 }
 
-// honestData is the attestation data an honest member of committee (a, index) signs when it sees the chain
-// exactly as the state st (at a later slot) remembers it.
-func (b *builder) honestData(a common.Slot, index common.CommitteeIndex) (phase0.AttestationData, error) {
-	spec := b.c.Spec
+// AttestationData is the attestation data an honest member of committee (a, index) signs when it sees the
+// chain exactly as the state st (at a later slot, at most SLOTS_PER_HISTORICAL_ROOT later) remembers it:
+// head = block root at slot a, target = block root at the start of a's epoch, source = the justified
+// checkpoint st prescribes for attestations of that epoch (current or previous).
+func (c *Chain) AttestationData(st common.BeaconState, a common.Slot, index common.CommitteeIndex) (phase0.AttestationData, error) {
+	spec := c.Spec
 	d := phase0.AttestationData{Slot: a, Index: index}
 	var err error
-	if d.BeaconBlockRoot, err = common.GetBlockRootAtSlot(spec, b.st, a); err != nil {
+	if d.BeaconBlockRoot, err = common.GetBlockRootAtSlot(spec, st, a); err != nil {
 		return d, err
 	}
 	te := spec.SlotToEpoch(a)
 	d.Target.Epoch = te
-	if d.Target.Root, err = common.GetBlockRoot(spec, b.st, te); err != nil {
+	if d.Target.Root, err = common.GetBlockRoot(spec, st, te); err != nil {
 		return d, err
 	}
-	if te == b.epoch {
-		d.Source, err = b.st.CurrentJustifiedCheckpoint()
+	slot, err := st.Slot()
+	if err != nil {
+		return d, err
+	}
+	if te == spec.SlotToEpoch(slot) {
+		d.Source, err = st.CurrentJustifiedCheckpoint()
 	} else {
-		d.Source, err = b.st.PreviousJustifiedCheckpoint()
+		d.Source, err = st.PreviousJustifiedCheckpoint()
 	}
 	return d, err
+}
+
+// MakeAttestation builds a signed aggregate attestation of committee (a, index) as seen from st/epc with the
+// given participation (participate[j] for committee position j; nil = everybody).
+func (c *Chain) MakeAttestation(st common.BeaconState, epc *common.EpochsContext, a common.Slot, index common.CommitteeIndex, participate []bool) (*phase0.Attestation, error) {
+	com, err := epc.GetBeaconCommittee(a, index)
+	if err != nil {
+		return nil, err
+	}
+	data, err := c.AttestationData(st, a, index)
+	if err != nil {
+		return nil, err
+	}
+	bits := newBitlist(len(com))
+	var who []common.ValidatorIndex
+	for j, v := range com {
+		if participate == nil || (j < len(participate) && participate[j]) {
+			bits.SetBit(uint64(j), true)
+			who = append(who, v)
+		}
+	}
+	sig := InfinitySignature()
+	if len(who) > 0 {
+		sig = c.SignIndexed(st, &data, who)
+	}
+	return &phase0.Attestation{AggregationBits: bits, Data: data, Signature: sig}, nil
+}
+
+func (b *builder) honestData(a common.Slot, index common.CommitteeIndex) (phase0.AttestationData, error) {
+	return b.c.AttestationData(b.st, a, index)
 }
 
 func (b *builder) attesterSlashings(body BodyRef) error {
